@@ -26,7 +26,7 @@ ASSUMPTIONS = ["out-of-envelope values are not judged (only acceptance inside th
                "value at the altitude the frame itself reports must not be inferred as BDS60",
                "T1 observes the isXX predicates of the repository itself; their soundness/completeness is what T2/T3 judge",
                "DF20 BDS 6,0 contents are generated with IAS within 10 kt of the Mach-consistent value at the frame's altitude"]
-REQUIRED = ["same_payload_under_another_header_first", "t0_random", "t1_df17", "t1_commb", "t1_empty", "t4_none", "t4_decided50", "t4_decided60", "t4_both", "t5_alt_le0", "t5_metric_header_altitude", "t4_reference_within_ulps_of_a_candidate",
+REQUIRED = ["same_payload_under_another_header_first", "t0_random", "t1_df17", "t1_commb", "t1_empty", "t4_none", "t4_decided50", "t4_decided60", "t4_both", "t5_alt_le0", "t5_metric_header_altitude", "t4_reference_within_ulps_of_a_candidate", "t4_df20_header_altitude_consistent_with_mach_and_ias",
             "t5_alt_pos"] + \
            ["t2_BDS%s" % r for r in ("10", "17", "20", "30", "40", "44", "45", "50", "60")] + \
            ["t3_BDS%s" % r for r in ("10", "17", "20", "30", "40", "44", "45", "50", "60")]
@@ -423,6 +423,24 @@ def m_t4(ctx, case):
                 if abs(tas - gs) > 100:
                     mb = put(mb, 47, 56, max(0, min(187, gs + rng.randint(-100, 100))))
         hx = commb_hex(ctx, mb, 21)
+        df20 = None
+        if rng.random() < 0.4:
+            # the same arbitration for a DF20 reply: its header altitude is chosen so that Mach and IAS agree THERE (else the
+            # payload is no BDS 6,0 candidate at all), while the reference altitude handed to is50or60 is drawn independently -
+            # the Mach/IAS rule of the arbitration is evaluated at alt_ref, whatever the header says
+            m_, i_ = fdec(mb, "mach60"), fdec(mb, "ias60")
+            code = 0
+            if m_ is not None and i_ is not None and m_ > 0:
+                lo_, hi_ = -1000.0, 50000.0
+                f_ = lambda hh: isa.mach2cas(m_, hh * isa.FT) / isa.KTS - i_      # noqa  decreasing in altitude
+                if f_(lo_) > 0 > f_(hi_):
+                    for _b in range(40):
+                        mid_ = (lo_ + hi_) / 2
+                        lo_, hi_ = (mid_, hi_) if f_(mid_) > 0 else (lo_, mid_)
+                    code = ralt.q_code13(max(0, min(2047, int(round((lo_ + 1000) / 25)))))
+                    ctx.hit("t4_df20_header_altitude_consistent_with_mach_and_ias")
+            hx = commb_hex(ctx, mb, 20, code)
+            df20 = code
         spd = rng.choice((rng.uniform(0, 600), 320.0))
         trk = rng.choice((rng.uniform(0, 360), 250.0))
         alt = rng.choice((rng.uniform(0, 45000), 14000.0, 35000.0))
